@@ -77,22 +77,42 @@ def _extras(*terms):
         raise Unsupported('closure term depends on non-ordering conditions %s' % sorted(fs))
     key, _ = _rs_key()
     extras = sorted((p for p in ps if p != key), key=repr)
+    allowed = []
     for p in extras:
         a, b = N.nf_from_key(p[0]), N.nf_from_key(p[1])
         d = a - b
         syms = d.symbols()
-        if syms & {'r', 'sigma'}:
+        if 'sigma' in syms:
             raise Unsupported('closure mask compares something other than r and sigma: %s vs %s' % (N.show(a), N.show(b)))
-        ok = len(syms) == 1 and d.is_poly() and all(a_[0] == 'sym' for a_ in d.all_atoms())
-        if ok:
-            sname = next(iter(syms))
-            ok = sname in ('g', 'u') and N.diff(d, sname).is_const() and not N.diff(d, sname).is_zero()
-        if not ok:
-            raise Unsupported('data condition %s vs %s: cannot certify that all three orderings occur' % (N.show(a), N.show(b)))
+        lin = len(syms) == 1 and d.is_poly() and all(a_[0] == 'sym' for a_ in d.all_atoms())
+        sname = next(iter(syms)) if len(syms) == 1 else None
+        if lin:
+            dd = N.diff(d, sname)
+            lin = dd.is_const() and not dd.is_zero()
+        if not lin:
+            raise Unsupported('data condition %s vs %s: cannot certify which orderings occur' % (N.show(a), N.show(b)))
+        if sname in ('g', 'u'):
+            allowed.append(('lt', 'eq', 'gt'))          # gamma and u range over all reals
+        elif sname == 'r':
+            # r is a radial distance: r >= 0, and r == 0 is a legitimate grid point for a direct call.
+            # d = c1*r + c0 ; sign pattern of d on r >= 0
+            c1 = N.diff(d, 'r').const_value()
+            c0 = N.subs(d, {'r': 0}).const_value()
+            root = -c0 / c1                               # d == 0 at r == root
+            outs = set()
+            if root > 0:
+                outs = {'lt', 'eq', 'gt'}
+            elif root == 0:
+                outs = {'eq', 'gt' if c1 > 0 else 'lt'}
+            else:
+                outs = {'gt' if c1 > 0 else 'lt'}
+            allowed.append(tuple(o for o in ('lt', 'eq', 'gt') if o in outs))
+        else:
+            raise Unsupported('data condition on %s' % sname)
     if len(extras) > 4:
         raise Unsupported('too many data conditions in a closure term')
     import itertools
-    return [dict(zip(extras, outs)) for outs in itertools.product(('lt', 'eq', 'gt'), repeat=len(extras))]
+    return [dict(zip(extras, outs)) for outs in itertools.product(*allowed)] if extras else [{}]
 
 
 def _origin_region(extras_vals):
@@ -101,7 +121,11 @@ def _origin_region(extras_vals):
         return {}
     v = {}
     for p in extras_vals[0]:
-        d = N.subs(N.nf_from_key(p[0]) - N.nf_from_key(p[1]), {'g': 0, 'u': 0})
+        d0 = N.nf_from_key(p[0]) - N.nf_from_key(p[1])
+        if d0.symbols() == {'r'}:       # a typical grid point: r beyond every constant it is compared with
+            v[p] = 'gt' if N.diff(d0, 'r').const_value() > 0 else 'lt'
+            continue
+        d = N.subs(d0, {'g': 0, 'u': 0})
         if not d.is_const():
             raise Unsupported('cannot locate the origin relative to a data condition')
         c = d.const_value()
@@ -129,8 +153,39 @@ def _pointwise_fragment(term):
     return bad or None
 
 
+def _principal(ev):
+    """the region that contains typical grid points and small gamma/u: r larger than every constant it is compared
+    with, gamma and u on the side of 0.  Violations there keep the plain key (so a listed finding stays one finding);
+    violations in any other region carry the region in their key and are reported on their own."""
+    for p, o in ev.items():
+        a, b_ = N.nf_from_key(p[0]), N.nf_from_key(p[1])
+        d = a - b_
+        (sname,) = d.symbols()
+        c1 = N.diff(d, sname).const_value()
+        if sname == 'r':
+            want = 'gt' if c1 > 0 else 'lt'
+        else:
+            c0 = N.subs(d, {sname: 0}).const_value()
+            want = 'gt' if c0 > 0 else ('lt' if c0 < 0 else 'eq')
+        if o != want:
+            return False
+    return True
+
+
+def _feasible(rs_order, ev):
+    """r == 0 (an `eq` ordering of a condition whose root is r = 0) lies inside every core (sigma > 0)"""
+    for p, o in ev.items():
+        d = N.nf_from_key(p[0]) - N.nf_from_key(p[1])
+        if d.symbols() == {'r'} and o == 'eq':
+            c1 = N.diff(d, 'r').const_value()
+            c0 = N.subs(d, {'r': 0}).const_value()
+            if -c0 / c1 == 0 and rs_order != 'lt':
+                return False
+    return True
+
+
 def rule_definition(ctx, rule='R09.d'):
-    """outside-core term equals the published relation, for flag in {False, True}"""
+    """outside-core term equals the published relation, for flag in {False, True}, in every data region"""
     n = 0
     for dcls, f, users in defining_classes(ctx.prog):
         cname = dcls.qualname
@@ -148,58 +203,67 @@ def rule_definition(ctx, rule='R09.d'):
                                       'its comparison with the reference is not decidable by normal forms' % npw[:3])
                 at = _outside(term)
                 regions = _extras(term)
-                out = at('gt', regions[0])
+                key_rs, _ = _rs_key()
+                has_core = key_rs in P.conds(term)[0]
+                # without a core branch "outside the core" is everywhere; with one it is r > sigma
+                cases = [ev for ev in regions if _feasible('gt', ev)] if has_core else regions
+                if not cases:
+                    raise Unsupported('no feasible region outside the core')
             except (Unsupported, Raised) as e:
                 ctx.undecided(rule, cname, 'apply_hard_core=%s: %s' % (flag, e), f.loc())
                 continue
             n += 1
+            out = at('gt', cases[0])
             if refs is None:
                 ctx.holds(rule, cname, 'apply_hard_core=%s: no reference relation for this closure in '
                           'spec/closures.py; generic rules only (extracted: %s)' % (flag, N.show(out)),
                           f.loc(), nontrivial=False)
                 continue
-            hit = [nm for nm, ref in refs if all(at('gt', ev).equals(ref) for ev in regions)]
-            if not hit and len(regions) > 1:
-                for ev in regions:
-                    if not any(at('gt', ev).equals(ref) for nm, ref in refs):
-                        out = at('gt', ev)
-                        ctx.violation(rule, cname, 'definition:outside-core',
-                                      'apply_hard_core=%s: in the region {%s} the extracted c(gamma,u) = %s differs from every '
-                                      'accepted reference (%s)' % (flag, P.show_val(ev), N.show(out),
-                                                                   '; '.join('%s: %s' % (nm, N.show(ref)) for nm, ref in refs)),
-                                      f.loc(), extracted=N.show(out), flag=flag)
-                        break
-                continue
+            hit = [nm for nm, ref in refs if all(at('gt', ev).equals(ref) for ev in cases)]
             if hit:
-                ctx.holds(rule, cname, 'apply_hard_core=%s: c(gamma,u) == %s reference' % (flag, hit[0]), f.loc(),
-                          key='flag=%s' % flag,
-                          sample={'flag': flag, 'extracted': N.show(out), 'reference': hit[0]})
-            else:
-                ctx.violation(rule, cname, 'definition:outside-core',
-                              'apply_hard_core=%s: extracted c(gamma,u) = %s differs from every accepted '
-                              'reference (%s)' % (flag, N.show(out),
+                ctx.holds(rule, cname, 'apply_hard_core=%s: c(gamma,u) == %s reference%s' % (
+                    flag, hit[0], (' in all %d data regions' % len(cases)) if len(cases) > 1 else ''), f.loc(),
+                    key='flag=%s' % flag, sample={'flag': flag, 'extracted': N.show(out), 'reference': hit[0]})
+                continue
+            reported = set()
+            for ev in cases:
+                leaf = at('gt', ev)
+                if any(leaf.equals(ref) for nm, ref in refs):
+                    continue
+                key = 'definition:outside-core' if _principal(ev) else 'definition:outside-core:{%s}' % P.show_val(ev)
+                if key in reported:
+                    continue
+                reported.add(key)
+                where = ('in the region {%s} ' % P.show_val(ev)) if ev else ''
+                ctx.violation(rule, cname, key,
+                              'apply_hard_core=%s: %sthe extracted c(gamma,u) = %s differs from every accepted '
+                              'reference (%s)' % (flag, where, N.show(leaf),
                                                   '; '.join('%s: %s' % (nm, N.show(ref)) for nm, ref in refs)),
-                              f.loc(), extracted=N.show(out), flag=flag)
+                              f.loc(), extracted=N.show(leaf), flag=flag)
     ctx.floor(rule, n, 8, 'closure definition obligations (4 closures x 2 flag values)')
 
 
-def rule_core(ctx, rule='R03.a'):
-    """flag set: value is exactly -1-gamma on not(r > sigma) and the closure formula exactly on r > sigma"""
+def rule_core(ctx, rule='R03.a', outside=True):
+    """flag set: value is exactly -1-gamma on not(r > sigma) (every data region); with outside=True also: on r > sigma
+    the flagged closure equals its own flag-free relation (sibling agreement of the two branches)"""
     n = 0
     for dcls, f, users in defining_classes(ctx.prog):
         cname = dcls.qualname
         try:
             w = run_closure(ctx.prog, dcls, True)
-            wf = run_closure(ctx.prog, dcls, False)
             term = w['res'].t
-            free = wf['res'].t
-            npw = _pointwise_fragment(term) or _pointwise_fragment(free)
+            npw = _pointwise_fragment(term)
+            free = None
+            if outside:
+                wf = run_closure(ctx.prog, dcls, False)
+                free = wf['res'].t
+                npw = npw or _pointwise_fragment(free)
             if npw:
                 raise Unsupported('extracted term contains non-pointwise operators %s (reported by R09.e)' % npw[:3])
             at = _outside(term)
-            regions = _extras(term, free)
+            regions = _extras(term, free) if free is not None else _extras(term)
             key_rs, _ = _rs_key()
-            if key_rs in P.conds(free)[0]:
+            if free is not None and key_rs in P.conds(free)[0]:
                 raise Unsupported('flag-free closure term is piecewise in r vs sigma')
         except (Unsupported, Raised) as e:
             ctx.undecided(rule, cname, str(e), f.loc())
@@ -209,23 +273,34 @@ def rule_core(ctx, rule='R03.a'):
         for ev in regions:
             where = (' (region {%s})' % P.show_val(ev)) if ev else ''
             for o in ('lt', 'eq'):
+                if not _feasible(o, ev):
+                    continue
                 leaf = at(o, ev)
                 if not leaf.equals(SPEC.CORE):
                     bad.append('at r %s sigma%s the value is %s, not -1-gamma' % ({'lt': '<', 'eq': '=='}[o], where, N.show(leaf)))
-            fl = P.at(free, ev) if P.is_pw(free) else free
-            if not at('gt', ev).equals(fl):
-                bad.append('at r > sigma%s the value is %s, not the closure relation %s' % (where, N.show(at('gt', ev)), N.show(fl)))
+            if free is not None and _feasible('gt', ev):
+                fl = P.at(free, ev) if P.is_pw(free) else free
+                if not at('gt', ev).equals(fl):
+                    bad.append('at r > sigma%s the flagged closure gives %s but the same closure without the flag gives %s'
+                               % (where, N.show(at('gt', ev)), N.show(fl)))
             if bad:
                 break
         if bad:
             ctx.violation(rule, cname, 'core-branch', '; '.join(bad), f.loc())
         else:
-            ctx.holds(rule, cname, 'c+gamma == -1 on r<sigma and r==sigma; closure relation on r>sigma '
-                      '(3 orderings enumerated)', f.loc(),
-                      sample={'closure': dcls.name, 'orderings': {'r<sigma': N.show(at('lt', regions[0])),
-                                                                 'r==sigma': N.show(at('eq', regions[0])),
-                                                                 'r>sigma': N.show(at('gt', regions[0]))}})
+            r0 = regions[0]
+            ctx.holds(rule, cname, 'c+gamma == -1 on r<sigma and r==sigma%s (3 orderings enumerated)'
+                      % ('; same relation as the flag-free branch on r>sigma' if outside else ''), f.loc(),
+                      sample={'closure': dcls.name, 'orderings': {'r<sigma': N.show(at('lt', r0)),
+                                                                 'r==sigma': N.show(at('eq', r0)),
+                                                                 'r>sigma': N.show(at('gt', r0))}})
     ctx.floor(rule, n, 4, 'closures with a hard-core branch')
+
+
+def rule_core_only(ctx, rule='R03.a'):
+    """C03's clause: inside the core of a flagged closure c + gamma == -1 exactly (what the closure does outside the core
+    is C09's business)"""
+    return rule_core(ctx, rule, outside=False)
 
 
 def rule_noflag_limit(ctx, rule='R03.c'):
@@ -362,27 +437,39 @@ def rule_elementwise(ctx, rule='R09.e'):
 INPUT_ATTRS = ('self.potential', 'self.sigma', 'self.apply_hard_core')
 
 
-def run_twice(prog, cls, flag, preset=()):
+def run_twice(prog, cls, flag, preset=(), feedback=False):
     """two consecutive evaluations of the same closure object with *different* symbolic potential and gamma"""
     ip = Interp(prog)
     ip.preset = list(preset)
-    for s_, k in (('u', 'curve'), ('g', 'curve'), ('r', 'curve'), ('sigma', 'scalar'), ('u1', 'curve'), ('g1', 'curve')):
+    for s_, k in (('u', 'curve'), ('g', 'curve'), ('r', 'curve'), ('sigma', 'scalar'), ('u1', 'curve'), ('g1', 'curve'),
+                  ('sigma1', 'scalar')):
         ip.declare(s_, k)
     o = ip.construct(cls, [], {'apply_hard_core': Const(flag)})
     o.origin = 'self'
-    o.attrs['sigma'] = Num(S)
+    o.attrs['sigma'] = Num(N.sym('sigma1'))     # the contact distance of the first evaluation (before a diameter edit)
     r = Arr(R, 'r', ip)
     m = ip.find_method(o, 'calculate')
     # first call: (u1, g1)
     o.attrs['potential'] = Arr(N.sym('u1'), 'self.potential', ip)
-    ip.call(m, [r, Arr(N.sym('g1'), 'gamma', ip)], {})
+    res1 = ip.call(m, [r, Arr(N.sym('g1'), 'gamma', ip)], {})
+    t1 = res1.t if isinstance(res1, (Arr, Num)) else None
     # the user (or PRISM.__init__ of a re-created object) installs another potential, the solver another gamma
     o.attrs['potential'] = Arr(U, 'self.potential', ip)
-    res = ip.call(m, [r, Arr(G, 'gamma', ip)], {})
-    return ip, {'res': res, 'obj': o}
+    o.attrs['sigma'] = Num(S)
+    if feedback:        # the array returned by the first evaluation is handed back as gamma (with contents g)
+        if not isinstance(res1, Arr):
+            raise Unsupported('first result is not a plain array')
+        res1.t = G
+        e0 = len(ip.events)
+        garr = res1
+    else:
+        e0 = len(ip.events)
+        garr = Arr(G, 'gamma', ip)
+    res = ip.call(m, [r, garr], {})
+    return ip, {'res': res, 'obj': o, 'res1': res1, 't1': t1, 'garr': garr, 'feedback': feedback}
 
 
-def rule_history(ctx, rule='R09.h'):
+def rule_history(ctx, rule='R09.h', aliasing=True):
     """The value returned by calculate depends only on the arguments and the *current* potential/sigma, never on an
     earlier evaluation (a cached exponential, a remembered mask ...).  Two-step induction: evaluate the object on
     (u1,g1), then on (u,g); the second result and every attribute left on the object must be the terms a fresh object
@@ -396,6 +483,8 @@ def rule_history(ctx, rule='R09.h'):
             try:
                 fresh = run_closure(ctx.prog, dcls, flag)
                 worlds = explore(lambda preset: run_twice(ctx.prog, dcls, flag, preset))
+                if aliasing:
+                    worlds += explore(lambda preset: run_twice(ctx.prog, dcls, flag, preset, feedback=True))
             except (Unsupported, Raised) as e:
                 ctx.undecided(rule, cname, 'apply_hard_core=%s: %s' % (flag, e), f.loc())
                 continue
@@ -410,6 +499,24 @@ def rule_history(ctx, rule='R09.h'):
                 if t2 is None:
                     bad.append('second evaluation does not return an array term' + where)
                     continue
+                if w['feedback']:
+                    # gamma (the array the caller got from the first call) must not be written by the second call
+                    if w['res'] is w['garr']:
+                        bad.append('the second evaluation returns the very array passed as gamma (a result handed back as '
+                                   'gamma is overwritten in place)' + where)
+                        continue
+                    gt_ = w['garr'].t
+                    if P.is_pw(gt_) or not gt_.equals(G):
+                        bad.append('a result array handed back as gamma is modified in place by the evaluation' + where)
+                        continue
+                elif aliasing:
+                    r1 = w['res1']
+                    if r1 is w['res'] and isinstance(r1, Arr):
+                        bad.append('two evaluations return the same array object: the first result is overwritten by the second' + where)
+                        continue
+                    if isinstance(r1, Arr) and w['t1'] is not None and not P.compare(r1.t, w['t1'])[0] == []:
+                        bad.append('the array returned by the first evaluation changes during the second' + where)
+                        continue
                 diffs, _ = P.compare(t2, ft)
                 if diffs:
                     v, lx, ly = diffs[0]
@@ -433,6 +540,13 @@ def rule_history(ctx, rule='R09.h'):
                           'fresh closure (%d path(s)); no state carried between calls' % (flag, len(worlds)), f.loc(),
                           key='flag=%s' % flag)
     ctx.floor(rule, n, 8, 'closure two-call history obligations')
+
+
+def rule_history_values(ctx, rule='R09.h'):
+    """the value-level half of R09.h (what C01 / C03 need): the second evaluation returns the terms of a fresh closure.
+    Whether successive results are independent arrays is a purity clause of C09 only (PRISM.cost copies each result
+    into directCorr at once)."""
+    return rule_history(ctx, rule, aliasing=False)
 
 
 def rule_purity(ctx, rule='R09.p'):
